@@ -450,7 +450,12 @@ impl<'a, L: chain::Listen + ?Sized> ChainNotifier<'a, L> {
 		&self, chain_poller: &mut P, header: &ValidatedBlockHeader,
 	) -> BlockSourceResult<ValidatedBlockHeader> {
 		match self.header_cache.look_up(&header.header.prev_blockhash) {
-			Some(prev_header) => Ok(*prev_header),
+			Some(prev_header) => {
+				// The cached header was validated when it was stored, but the header leading us to it
+				// still has to connect to it, as it would when fetched through the poller.
+				header.check_connects_to(prev_header)?;
+				Ok(*prev_header)
+			},
 			None => chain_poller.look_up_previous_header(header).await,
 		}
 	}
